@@ -596,13 +596,13 @@ Qed.
 
 Theorem change_spec c now age order s i : change c now age order s = Ok (Some i) ->
   exists e, nth_error (ents s) i = Some e /\ inset e = true /\ In i order /\
-    pick_sorted (earlier_than c (eff_now now (last s)) age) (tagged order s) = Some (i, e) /\
+    pick_sorted (threshold c now age (last s)) (tagged order s) = Some (i, e) /\
     (forall j e', nth_error (ents s) j = Some e' -> inset e' = true -> In (j, e') (tagged order s)).
 Proof.
   unfold change. destruct (order_ok order s) eqn:Ok1; [|discriminate].
   unfold order_ok in Ok1. apply andb_true_iff in Ok1 as [Ok1 Ok3]. apply andb_true_iff in Ok1 as [_ Ok2].
   rewrite forallb_forall in Ok2, Ok3.
-  destruct (pick_sorted (earlier_than c (eff_now now (last s)) age) (tagged order s)) as [[i' e]|] eqn:P; simpl; [|discriminate].
+  destruct (pick_sorted (threshold c now age (last s)) (tagged order s)) as [[i' e]|] eqn:P; simpl; [|discriminate].
   intros H. inversion H; subst i'. clear H.
   pose proof (picked_is_eligible _ _ _ P) as [Hin _].
   unfold tagged in Hin. apply in_map_iff in Hin as [j [Ej Hj]]. inversion Ej; subst j.
@@ -621,9 +621,9 @@ Qed.
 (* the pick of change() is a member, eligible, and minimal among ALL eligible members *)
 Theorem change_min c now age order s i : change c now age order s = Ok (Some i) ->
   exists e, nth_error (ents s) i = Some e /\ inset e = true /\
-    eligible (earlier_than c (eff_now now (last s)) age) e = true /\
+    eligible (threshold c now age (last s)) e = true /\
     forall j e', nth_error (ents s) j = Some e' -> inset e' = true ->
-      eligible (earlier_than c (eff_now now (last s)) age) e' = true -> key_le e e'.
+      eligible (threshold c now age (last s)) e' = true -> key_le e e'.
 Proof.
   intros H. destruct (change_spec _ _ _ _ _ _ H) as [e [En [Hi [_ [P Hall]]]]].
   exists e. split; [exact En|]. split; [exact Hi|].
@@ -633,11 +633,11 @@ Qed.
 
 Theorem change_none c now age order s : change c now age order s = Ok None ->
   forall j e', nth_error (ents s) j = Some e' -> inset e' = true ->
-    eligible (earlier_than c (eff_now now (last s)) age) e' = false.
+    eligible (threshold c now age (last s)) e' = false.
 Proof.
   unfold change. destruct (order_ok order s) eqn:Ok1; [|discriminate].
   unfold order_ok in Ok1. apply andb_true_iff in Ok1 as [_ Ok3]. rewrite forallb_forall in Ok3.
-  destruct (pick_sorted (earlier_than c (eff_now now (last s)) age) (tagged order s)) as [[i' e]|] eqn:P; simpl; [discriminate|].
+  destruct (pick_sorted (threshold c now age (last s)) (tagged order s)) as [[i' e]|] eqn:P; simpl; [discriminate|].
   intros _ j e' En' Hi'.
   assert (Hm : member s j = true) by (unfold member; rewrite En'; exact Hi').
   assert (Hlt : (j < length (ents s))%nat) by (apply nth_error_Some; congruence).
@@ -843,8 +843,8 @@ Theorem history_not_before_aged c l0 ops s now age order i : cfg_ok c ->
   change c now age order s = Ok (Some i) ->
   exists e, nth_error (ents s) i = Some e /\ inset e = true /\
     (pri e < 0 \/
-     exists sd, aged (earlier_than c (eff_now now (last s)) age) (ch sd e) /\
-                forall t, nt sd e = Some t -> t <= earlier_than c (eff_now now (last s)) age).
+     exists sd, aged (threshold c now age (last s)) (ch sd e) /\
+                forall t, nt sd e = Some t -> t <= threshold c now age (last s)).
 Proof.
   intros Hc Hs Hch.
   assert (Hok : all_ok s) by (eapply steps_keeps; [exact Hc|exact Hs|constructor]).
@@ -852,8 +852,8 @@ Proof.
   exists e. split; [exact En|]. split; [exact Hi|].
   pose proof (nth_error_forall _ _ _ _ Hok En) as He0. pose proof (proj2 (ent_ok_sides e) He0) as He.
   apply eligible_iff in Pe.
-  assert (Hside : forall sd, aged (earlier_than c (eff_now now (last s)) age) (ch sd e) ->
-            forall t, nt sd e = Some t -> t <= earlier_than c (eff_now now (last s)) age).
+  assert (Hside : forall sd, aged (threshold c now age (last s)) (ch sd e) ->
+            forall t, nt sd e = Some t -> t <= threshold c now age (last s)).
   { intros sd [q [Eq [Hq Hle]]] t Ht. specialize (He sd). unfold side_ok in He.
     assert (Tr : truthy (ch sd e) = true) by (apply truthy_some; exists q; auto).
     specialize (He Tr t Ht). rewrite Eq in He. simpl in He. lra. }
@@ -915,70 +915,74 @@ Proof.
   vm_compute in H1. apply H1. reflexivity.
 Qed.
 
-(* ------------------------------------------------------------------ ageing zero (code since /repo 5c0d808) *)
-Lemma eff_now_ge_clock now lst : now <= eff_now now lst.
-Proof. apply qmax_ge_l. Qed.
-Lemma eff_now_ge_last now lst : lst <= eff_now now lst.
-Proof. apply qmax_ge_r. Qed.
-Lemma eff_now_clock now lst : lst <= now -> eff_now now lst = now.
-Proof. intros H. unfold eff_now, qmax. destruct (qltb now lst) eqn:E; [apply qltb_true in E; lra|reflexivity]. Qed.
-
-(* with ageing 0 an entry is eligible as soon as one truthy stamp is <= max(clock, last change stamp) *)
-Theorem age_zero_eligible c now s e :
-  c_rnd c (eff_now now (last s) - 0) == eff_now now (last s) ->
-  (exists sd q, ch sd e = Some q /\ ~ q == 0 /\ q <= eff_now now (last s)) ->
-  eligible (earlier_than c (eff_now now (last s)) 0) e = true.
+(* ------------------------------------------------------------------ the threshold (/repo 5c0d808 + ed9e461) *)
+(* a positive ageing interval is measured on the clock itself *)
+Lemma threshold_pos c now age lst : 0 < age -> threshold c now age lst = earlier_than c now age.
 Proof.
-  intros Hr [sd [q [Eq [Hq Hle]]]]. apply eligible_iff.
-  assert (Ha : aged (earlier_than c (eff_now now (last s)) 0) (ch sd e)).
-  { exists q. split; [exact Eq|]. split; [exact Hq|]. unfold earlier_than, fsub. rewrite Hr. exact Hle. }
-  destruct sd; simpl in Ha; auto.
+  intros H. unfold threshold, threshold_adj. destruct (Qle_bool age 0) eqn:E; [|reflexivity].
+  apply qleb_true in E. lra.
+Qed.
+(* ageing <= 0: never below the last change stamp *)
+Lemma threshold_nonpos c now age lst : age <= 0 ->
+  lst <= threshold c now age lst /\ earlier_than c now age <= threshold c now age lst.
+Proof.
+  intros H. unfold threshold, threshold_adj. apply qleb_true in H. rewrite H.
+  split; [apply qmax_ge_r|apply qmax_ge_l].
 Qed.
 
-(* ... so change(0) returns something whenever such an entry is pending *)
-Theorem age_zero_change_some c now order s j e :
-  c_rnd c (eff_now now (last s) - 0) == eff_now now (last s) ->
-  order_ok order s = true -> nth_error (ents s) j = Some e -> inset e = true ->
-  (exists sd q, ch sd e = Some q /\ ~ q == 0 /\ q <= eff_now now (last s)) ->
-  exists i, change c now 0 order s = Ok (Some i).
-Proof.
-  intros Hr Hok En Hi Hst.
-  destruct (change c now 0 order s) as [[i|]|] eqn:C.
-  - exists i. reflexivity.
-  - exfalso. pose proof (change_none _ _ _ _ _ C j e En Hi) as Hn.
-    rewrite (age_zero_eligible c now s e Hr Hst) in Hn. discriminate.
-  - unfold change in C. rewrite Hok in C. discriminate.
-Qed.
-
-(* a stamp written by mark_changed never exceeds _last_changed_time afterwards: as long as it has not been
-   punted or overwritten, the entry is eligible at ageing 0 whatever the clock reads (same tick, clock
-   gone backwards) *)
-Theorem age_zero_marked_eligible c sd t i s0 s1 ops s2 now e2 : bump_ok c ->
-  mark_changed c sd t i s0 = Ok s1 -> steps c ops s1 = Ok s2 ->
-  nth_error (ents s2) i = Some e2 -> ch sd e2 = Some (last s1) -> ~ last s1 == 0 ->
-  c_rnd c (eff_now now (last s2) - 0) == eff_now now (last s2) ->
-  eligible (earlier_than c (eff_now now (last s2)) 0) e2 = true.
-Proof.
-  intros Hb Hm Hs En Ec Hnz Hr. apply age_zero_eligible; [exact Hr|].
-  exists sd, (last s1). split; [exact Ec|]. split; [exact Hnz|].
-  apply steps_last in Hs; [|exact Hb]. pose proof (eff_now_ge_last now (last s2)). lra.
-Qed.
-
-(* when no change stamp is ahead of the clock reading (the normal situation) the ageing interval is
-   measured on the clock itself *)
-Theorem history_not_before_aged_clock c l0 ops s now age order i : cfg_ok c ->
-  steps c ops {| ents := []; last := l0 |} = Ok s -> last s <= now ->
+Theorem history_not_before_aged_clock c l0 ops s now age order i : cfg_ok c -> 0 < age ->
+  steps c ops {| ents := []; last := l0 |} = Ok s ->
   change c now age order s = Ok (Some i) ->
   exists e, nth_error (ents s) i = Some e /\ inset e = true /\
     (pri e < 0 \/
      exists sd, aged (earlier_than c now age) (ch sd e) /\
                 forall t, nt sd e = Some t -> t <= earlier_than c now age).
 Proof.
-  intros Hc Hs Hl Hch. pose proof (history_not_before_aged c l0 ops s now age order i Hc Hs Hch) as H.
-  rewrite (eff_now_clock now (last s) Hl) in H. exact H.
+  intros Hc Ha Hs Hch. pose proof (history_not_before_aged c l0 ops s now age order i Hc Hs Hch) as H.
+  rewrite (threshold_pos c now age (last s) Ha) in H. exact H.
 Qed.
 
-(* the same-tick history: refuted for the pre-5c0d808 variant (now = time.time()), positive for the code now *)
+(* ------------------------------------------------------------------ ageing zero *)
+(* with ageing <= 0 an entry is eligible as soon as one truthy stamp is <= the last change stamp (or <= now - age) *)
+Theorem age_zero_eligible c now age s e : age <= 0 ->
+  (exists sd q, ch sd e = Some q /\ ~ q == 0 /\ (q <= last s \/ q <= earlier_than c now age)) ->
+  eligible (threshold c now age (last s)) e = true.
+Proof.
+  intros Hage [sd [q [Eq [Hq Hle]]]]. apply eligible_iff.
+  destruct (threshold_nonpos c now age (last s) Hage) as [T1 T2].
+  assert (Ha : aged (threshold c now age (last s)) (ch sd e)).
+  { exists q. split; [exact Eq|]. split; [exact Hq|]. destruct Hle; lra. }
+  destruct sd; simpl in Ha; auto.
+Qed.
+
+(* ... so change(age <= 0) returns something whenever such an entry is pending *)
+Theorem age_zero_change_some c now age order s j e : age <= 0 ->
+  order_ok order s = true -> nth_error (ents s) j = Some e -> inset e = true ->
+  (exists sd q, ch sd e = Some q /\ ~ q == 0 /\ (q <= last s \/ q <= earlier_than c now age)) ->
+  exists i, change c now age order s = Ok (Some i).
+Proof.
+  intros Hage Hok En Hi Hst.
+  destruct (change c now age order s) as [[i|]|] eqn:C.
+  - exists i. reflexivity.
+  - exfalso. pose proof (change_none _ _ _ _ _ C j e En Hi) as Hn.
+    rewrite (age_zero_eligible c now age s e Hage Hst) in Hn. discriminate.
+  - unfold change in C. rewrite Hok in C. discriminate.
+Qed.
+
+(* a stamp written by mark_changed never exceeds _last_changed_time afterwards: as long as it has not been
+   punted or overwritten, the entry is eligible at ageing <= 0 whatever the clock reads (same tick, clock
+   gone backwards) *)
+Theorem age_zero_marked_eligible c sd t i s0 s1 ops s2 now age e2 : bump_ok c -> age <= 0 ->
+  mark_changed c sd t i s0 = Ok s1 -> steps c ops s1 = Ok s2 ->
+  nth_error (ents s2) i = Some e2 -> ch sd e2 = Some (last s1) -> ~ last s1 == 0 ->
+  eligible (threshold c now age (last s2)) e2 = true.
+Proof.
+  intros Hb Hage Hm Hs En Ec Hnz. apply age_zero_eligible; [exact Hage|].
+  exists sd, (last s1). split; [exact Ec|]. split; [exact Hnz|].
+  apply steps_last in Hs; [|exact Hb]. left. exact Hs.
+Qed.
+
+(* the same-tick history: refuted for the pre-5c0d808 variant (threshold = now - age), positive for the code now *)
 Definition change_v0 (c : cfg) (now age : Q) (order : list nat) (s : st) : res (option nat) :=
   if order_ok order s then Ok (option_map fst (pick_sorted (earlier_than c now age) (tagged order s))) else Bad.
 Definition same_tick_history : list op :=
@@ -997,7 +1001,7 @@ Lemma age_zero_every_pending_false :
        steps c ops {| ents := []; last := l0 |} = Ok s -> order_ok order s = true ->
        forall j e, nth_error (ents s) j = Some e -> inset e = true ->
          (exists sd, truthy (ch sd e) = true) ->
-         eligible (earlier_than c (eff_now now (last s)) 0) e = true).
+         eligible (threshold c now 0 (last s)) e = true).
 Proof.
   intros H.
   assert (Hc : cfg_ok (cfg_exact (1 # 4) (1 # 4))) by (apply cfg_ok_exact; discriminate).
@@ -1011,18 +1015,17 @@ Proof.
   vm_compute in H1. discriminate.
 Qed.
 
-(* the price of the fix: ageing is measured against max(clock, last change stamp), which runs ahead of the
-   clock by 0.001 per same-tick notification; entry 0, notified at clock 5, is picked at clock 5 with
-   ageing 1/1000 because entry 1 pushed the last change stamp to 5.001 *)
+(* two notifications in one tick push the last change stamp to 5.001; entry 0 (notified at clock 5) is NOT picked at
+   clock 5 with ageing 1/1000 (the interval is measured on the clock), and IS picked with ageing 0 *)
 Definition ahead_history : list op := [ONew; OSetOid 0 SL; OMark 0 SL 5; ONew; OSetOid 1 SL; OMark 1 SL 5].
-Lemma ahead_of_clock_witness :
-  exists s e, steps (cfg_exact (1 # 4) (1 # 4)) ahead_history {| ents := []; last := 1 |} = Ok s /\
-    change (cfg_exact (1 # 4) (1 # 4)) 5 (1 # 1000) [0%nat; 1%nat] s = Ok (Some 0%nat) /\
-    nth_error (ents s) 0 = Some e /\ pri e = 0 /\ chL e = Some 5 /\ ntL e = Some 5 /\ chR e = None /\
-    change_v0 (cfg_exact (1 # 4) (1 # 4)) 5 (1 # 1000) [0%nat; 1%nat] s = Ok None.
+Lemma ahead_of_clock_example :
+  exists s, steps (cfg_exact (1 # 4) (1 # 4)) ahead_history {| ents := []; last := 1 |} = Ok s /\
+    last s = 5 + (1 # 1000) /\
+    change (cfg_exact (1 # 4) (1 # 4)) 5 (1 # 1000) [0%nat; 1%nat] s = Ok None /\
+    change (cfg_exact (1 # 4) (1 # 4)) 5 0 [0%nat; 1%nat] s = Ok (Some 0%nat).
 Proof.
-  eexists. eexists. split; [vm_compute; reflexivity|]. split; [vm_compute; reflexivity|].
-  split; [vm_compute; reflexivity|]. repeat split; vm_compute; reflexivity.
+  eexists. split; [vm_compute; reflexivity|]. split; [vm_compute; reflexivity|].
+  split; vm_compute; reflexivity.
 Qed.
 
 (* IEEE doubles: last + 0.001 == last once last >= 2^44, so "whatever the clock returns" fails for the float
